@@ -117,10 +117,10 @@ def rule_compiles(ctx: Ctx, rid="C07.SHAPE-COMPILES", strict=True, layouts=None)
     ctx.rep.floor("shape x layout instances", n, 180 if layouts is None else 90)
 
 
-def unbound_names(ir):
+def unbound_names(ir, dsl=()):
     imported = {a for _, _, a in ir["imports"]}
     top = set(ir["defs"])
-    b = set(dir(builtins))
+    b = set(dir(builtins)) - set(dsl)      # a field of the experiment must be bound as a field, not found as a builtin
     main_params = set(ir["main_params"]) | ({ir["main_kwargs"]} if ir["main_kwargs"] else set())
     helper_scope = imported | top | b | (main_params if ir["helper_nested"] else set())
     return (ir["helper_free"] - helper_scope) | (ir["main_free"] - (imported | top | b))
@@ -160,7 +160,8 @@ def rule_names_bound(ctx: Ctx, rid="C07.NAMES-BOUND", layouts=None):
             continue
         imported = {a for _, _, a in ir["imports"]}
         top = set(ir["defs"])
-        b = set(dir(builtins))
+        dsl = {h.sym.name for h in o.holes() if h.sym.kind == "ident"}
+        b = set(dir(builtins)) - dsl
         main_params = set(ir["main_params"]) | ({ir["main_kwargs"]} if ir["main_kwargs"] else set())
         helper_scope = imported | top | b | (main_params if ir["helper_nested"] else set())
         missing_h = ir["helper_free"] - helper_scope
@@ -387,6 +388,20 @@ def rule_coercions(ctx: Ctx, rid="C05.NO-LOSSY-UNION", fields=None, skip_validat
                 else:
                     why = "; ".join(f"{w} allowed: {ALLOWED_COERCIONS[(s.target.id, w)]}" for w, _ in hits) or "no coercion observed"
                     ctx.rep.ok(rid, con, f"Union[{', '.join(members)}] keeps each literal's own type ({why})", site=st.site(s))
+    # coercions on fields that are not multi-scalar Unions (e.g. Config.anystr_strip_whitespace on a str field)
+    listed = {o_.construct for o_ in ctx.rep.obs if o_.rule == rid}
+    for (where, what), (fsite, srcsym, label) in sorted(seen.items(), key=lambda kv: str(kv[0])):
+        if what == "validator-rewrite" or not isinstance(where, str):
+            continue
+        fname = where.split(".")[-1]
+        con = f"data_structures/syntax_tree.py:{where.split(':')[-1]}"
+        if con in listed or (fname, what) in ALLOWED_COERCIONS:
+            continue
+        if fields is not None and fname not in fields:
+            continue
+        listed.add(con)
+        ctx.rep.bad(rid, con, f"the model changes the literal on its way into the AST: {what} applied to {srcsym} (shape: {label})",
+                    site=fsite, text=f"{where} {what}")
     # validators that rewrite values
     for o in ctx.outcomes():
         for what, where, fsite, srcsym in o.interp.pyd_events:
@@ -397,7 +412,10 @@ def rule_coercions(ctx: Ctx, rid="C05.NO-LOSSY-UNION", fields=None, skip_validat
                     ctx.rep.bad(rid, f"data_structures/syntax_tree.py:{where.split(':')[-1]}[validator {srcsym}]",
                                 f"a pydantic validator ({srcsym}) returns something other than the value it was given: the literal "
                                 "stored in the AST can differ from the one written", site=fsite, text=f"validator {srcsym} on {where}")
-    ctx.rep.floor("model fields with a multi-scalar Union", n, 3 if fields is None else 1)
+    if fields is None or "group_weight" in fields:
+        ctx.rep.floor("model fields with a multi-scalar Union", n, 3 if fields is None else 1)
+    elif not any(o_.rule == rid for o_ in ctx.rep.obs):
+        ctx.rep.ok(rid, "data_structures/syntax_tree.py", f"no coercion, Config option or validator alters the fields {sorted(fields)}")
 
 
 def rule_renderers(ctx: Ctx, rid="C05.TERM-RENDER", kinds=("str", "int", "float", "ident"), taint_only=False, extra_safe=()):
@@ -600,6 +618,9 @@ def rule_key(ctx: Ctx, rid="C12.KEY-DESCRIPTOR", mode="exact"):
                     problem = f"part of the key is not understood as str() of a splitter or a constant: {unknown[0][1][:80]}"
                 elif mode in ("names", "str-only") and set(names) != split:
                     problem = f"splitter(s) {sorted(split - set(names))} do not enter the key"
+                elif mode == "names" and names != sorted(names) and len(set(names)) == len(names):
+                    problem = (f"the key lists the splitters as {names}, not in an order that is independent of how they were "
+                               f"declared (alphabetical: {sorted(names)})")
                 elif mode == "names":
                     salt_exp = [p for p in exp if p[0] == "const" and p[1] != ""]
                     salt_got = [p for p in got if p[0] == "const" and isinstance(p[1], tuple)]
@@ -670,6 +691,10 @@ def rule_signature(ctx: Ctx, rid="C09.SIGNATURE"):
         for p, v in ir["helper_call_binding"].items():
             if v != ("name", p):
                 problems.append(f"helper parameter {p} is bound to {v}, not to the field of the same name")
+            elif p not in ir["main_params"]:
+                problems.append(f"the condition field `{p}` is handed to the helper but is not a parameter of the generated function: "
+                                "it is taken from the enclosing scope (a builtin or module global of that name) and the caller's value "
+                                "disappears into **kwargs")
         if set(ir["helper_call_binding"]) != set(ir["helper_params"]):
             problems.append("helper call does not bind exactly the helper's parameters")
         # experiment id only as def name
